@@ -469,7 +469,16 @@ class String(FieldValidator[_P, str], Generic[_P]):
 
         if _VALIDATION_ENABLED.get():
             self.validate_one(value)
-        setattr(obj, self._private_name, value.encode("ascii"))
+        data = value.encode("ascii")
+        setattr(obj, self._private_name, data)
+        if issubclass(self._ctype, ctypes.Array) and len(data) + 1 < self.len:
+            # clear what an earlier, longer value left behind the terminator
+            field = getattr(type(obj), self._private_name)
+            ctypes.memset(
+                ctypes.addressof(obj) + field.offset + len(data) + 1,
+                0,
+                self.len - len(data) - 1,
+            )
 
     def validate_one(self, value: str):
         """Validate a string value
